@@ -7,3 +7,4 @@ import AmVerif.Props.C16
 import AmVerif.Props.C12
 import AmVerif.Props.C04
 import AmVerif.Props.C11
+import AmVerif.Props.C07
